@@ -289,6 +289,8 @@ def check_union(S, r, depth, n_perturb):
         S.dist["union:operands=%d" % n] += 1
         if len(expect_flat) != n:
             S.dist["union:flattened"] += 1
+            if sum(1 for s in S.samples if s.get("op") == "union") < 2:
+                S.samples.append({"op": "union", "expr": usrc, "result": repr(u)})
         for v in vals:
             S.oracle_cases += 1
             parts = [verdict(x, v) for x in objs]
@@ -433,6 +435,9 @@ def check_add(S, r, depth, n_perturb):
         if o is not None and e.key is not ...:
             S.dist["add:overlap %s->%s" % ("opt" if e.opt else "req", "opt" if o.opt else "req")] += 1
     S.dist["add:relaxed d1=%d d2=%d" % (d1s.relaxed(), d2s.relaxed())] += 1
+    if sum(1 for s in S.samples if s.get("op") == "add") < 2 and any(
+            d2s.find(e.key) is not None for e in d1s.ents() if e.key is not ...):
+        S.samples.append({"op": "add", "expr": expr, "result": repr(d), "textbook": exp_s.src})
     if d1s.entries is None or d2s.entries is None:
         S.dist["add:undeclared operand"] += 1
     # same schema as the one declared from the textbook merge (order included)
@@ -540,6 +545,8 @@ def check_required(S, r, depth, n_perturb):
         S.viol(f"make_required raises {out}", dict(rp, observed=repr(d2)))
         return
     need = [k for k in eff if k is not ...]
+    if sum(1 for s in S.samples if s.get("op") == "make_required") < 2 and ds.entries:
+        S.samples.append({"op": "make_required", "expr": expr, "result": repr(d2)})
     for v in values_for(r, [d, d2], n_perturb):
         S.oracle_cases += 1
         got = verdict(d2, v)
@@ -646,7 +653,7 @@ def run(ctx):
              "present), DeclarationError iff an undeclared key is listed; alias verdict == target verdict; d[k] is the "
              "declared member object, KeyError otherwise; iteration/keys() list the declared keys in order. "
              "Non-trivial: every correspondence case (distinct by canonical Coq term)." % depth,
-        samples=S.samples or [m for m in (S.meta["combcase"][:2] + S.meta["getcase"][:1])],
+        samples=S.samples,
         correspondence={"suite": "combinators", "cases": total, "mismatches": mismatches,
                         "unmodelled": S.unmodelled, "per_suite": per},
         oracle_cases=S.oracle_cases,
